@@ -434,6 +434,15 @@ func (rl *respDeserializer) plausibleCount(count int) bool {
 	return count >= 0 && count <= len(rl.content)-rl.pos
 }
 
+// An aggregate cannot be the key of a map or the member of a set (Go cannot hash it).
+func respKeyUsable(k respValue) bool {
+	switch k.data.(type) {
+	case respArray, respMap, respSet, respPairs, respAttributeMap, respPush:
+		return false
+	}
+	return true
+}
+
 func (rl *respDeserializer) getNextArray(count int) (value respArray, valid bool) {
 	if !rl.plausibleCount(count) {
 		return
@@ -463,6 +472,10 @@ func (rl *respDeserializer) getNextMap(pairs int) (value respMap, valid bool) {
 			return
 		}
 		k = respNormalizeKey(k)
+		if !respKeyUsable(k) {
+			valid = false
+			return
+		}
 		if v, valid = rl.getNextValue(); !valid {
 			return
 		}
@@ -485,6 +498,10 @@ func (rl *respDeserializer) getNextAttributeMap(pairs int) (value respAttributeM
 			return
 		}
 		k = respNormalizeKey(k)
+		if !respKeyUsable(k) {
+			valid = false
+			return
+		}
 		if v, valid = rl.getNextValue(); !valid {
 			return
 		}
@@ -507,6 +524,10 @@ func (rl *respDeserializer) getNextSet(count int) (value respSet, valid bool) {
 			return
 		}
 		v = respNormalizeKey(v)
+		if !respKeyUsable(v) {
+			valid = false
+			return
+		}
 		s[v] = struct{}{}
 	}
 
@@ -603,6 +624,10 @@ func (rl *respDeserializer) getNextDynamicMap() (value respMap, valid bool) {
 			return m, true
 		}
 		k = respNormalizeKey(k)
+		if !respKeyUsable(k) {
+			valid = false
+			return
+		}
 		if v, valid = rl.getNextValue(); !valid {
 			return
 		}
@@ -624,6 +649,10 @@ func (rl *respDeserializer) getNextDynamicAttributeMap() (value respAttributeMap
 		}
 
 		k = respNormalizeKey(k)
+		if !respKeyUsable(k) {
+			valid = false
+			return
+		}
 		if v, valid = rl.getNextValue(); !valid {
 			return
 		}
@@ -644,6 +673,10 @@ func (rl *respDeserializer) getNextDynamicSet() (value respSet, valid bool) {
 			return s, true
 		}
 		v = respNormalizeKey(v)
+		if !respKeyUsable(v) {
+			valid = false
+			return
+		}
 		s[v] = struct{}{}
 	}
 }
